@@ -330,9 +330,17 @@ class Interp:
             neg = False
             while isinstance(t, ast.UnaryOp) and isinstance(t.op, ast.Not):
                 t, neg = t.operand, not neg
+            nm = None
             if isinstance(t, ast.Call) and src(t.func) == 'isinstance' and len(t.args) == 2 and src(t.args[1]) == 'list' \
                     and isinstance(t.args[0], ast.Name):
                 nm = t.args[0].id
+            elif isinstance(t, ast.Compare) and len(t.ops) == 1 and isinstance(t.ops[0], (ast.Is, ast.Eq, ast.IsNot, ast.NotEq)) \
+                    and isinstance(t.left, ast.Call) and src(t.left.func) == 'type' and len(t.left.args) == 1 \
+                    and isinstance(t.left.args[0], ast.Name) and src(t.comparators[0]) == 'list':
+                nm = t.left.args[0].id          # type(x) is list
+                if isinstance(t.ops[0], (ast.IsNot, ast.NotEq)):
+                    neg = not neg
+            if nm is not None:
                 yes, no = st.copy(), st.copy()
                 if yes.shape.get(nm, OTHER) not in (FLAT, NESTED):
                     yes.shape[nm] = FLAT
@@ -1140,7 +1148,79 @@ class Interp:
         ev.depth = len(self.stack) - 1
         return ev
 
+    def lift_nested_call(self, n):
+        """a spliceable helper call nested inside the statement's expression (an argument of another call, an operand, an
+        element of a tuple ...) is given a name first:  f(*self._heads())  ==  t = self._heads(); f(*t).  Only when everything
+        evaluated before it is call-free (the order of effects is unchanged) and no conditional evaluation (and/or, x if c
+        else y, lambda, comprehension) or emission call lies in between.  Returns [assignment, rewritten statement] or None."""
+        if not isinstance(n, (ast.Expr, ast.Assign, ast.AnnAssign, ast.Return, ast.AugAssign)) or getattr(n, 'value', None) is None:
+            return None
+        top = n.value
+        core = top.value if isinstance(top, (ast.Await, ast.Yield, ast.YieldFrom)) and top.value is not None else top
+        if not any(isinstance(x, ast.Call) and x is not core for x in ast.walk(core)):
+            return None
+
+        def effect_free(e):
+            return not any(isinstance(x, (ast.Call, ast.Await, ast.Yield, ast.YieldFrom)) for x in ast.walk(e))
+
+        def children(e):
+            if isinstance(e, ast.Call):
+                return [e.func] + list(e.args) + [k.value for k in e.keywords]
+            if isinstance(e, (ast.Lambda, ast.ListComp, ast.SetComp, ast.DictComp, ast.GeneratorExp, ast.IfExp, ast.BoolOp)):
+                return None
+            return [c for c in ast.iter_child_nodes(e) if isinstance(c, ast.expr)]
+
+        def find(e, path):
+            # returns the chain of nodes from the statement's expression down to the call to lift, or None / 'stop'
+            if isinstance(e, ast.Call) and e is not core and self.top_self_call(e):
+                return path + [e]
+            ch = children(e)
+            if ch is None:
+                return 'stop' if not effect_free(e) else None
+            for c in ch:
+                r = find(c, path + [e])
+                if r is not None:
+                    return r
+            if isinstance(e, (ast.Call, ast.Await, ast.Yield, ast.YieldFrom)) and e is not core:
+                return 'stop'           # an effect that runs before anything further to the right
+            return None
+        chain = find(core, [])
+        if not chain or chain == 'stop':
+            return None
+        call = chain[-1]
+        if any(isinstance(a, ast.Call) and isinstance(a.func, ast.Attribute) and a.func.attr in ('_emit', 'emit') for a in chain[:-1]):
+            return None                 # (emission calls are identified by node identity elsewhere: never rebuilt)
+        tmp = '__lift_%d_%d' % (call.lineno, call.col_offset)
+        new = ast.copy_location(ast.Name(id=tmp, ctx=ast.Load()), call)
+        return self._rebuild_with(n, top, core, chain, new, tmp)
+
+    def _rebuild_with(self, n, top, core, chain, new, tmp):
+        import copy as _copy
+        call = chain[-1]
+        repl = {id(call): new}
+
+        def rebuild(e):
+            if id(e) in repl:
+                return repl[id(e)]
+            if not any(x is call for x in ast.walk(e)):
+                return e
+            clone = _copy.copy(e)
+            for f, v in ast.iter_fields(e):
+                if isinstance(v, list):
+                    setattr(clone, f, [rebuild(x) if isinstance(x, ast.AST) else x for x in v])
+                elif isinstance(v, ast.AST):
+                    setattr(clone, f, rebuild(v))
+            return clone
+        stmt2 = _copy.copy(n)
+        stmt2.value = rebuild(n.value)
+        asg = ast.copy_location(ast.Assign(targets=[ast.copy_location(ast.Name(id=tmp, ctx=ast.Store()), call)], value=call), n)
+        return [asg, stmt2]
+
     def stmt(self, n, st):
+        lifted = self.lift_nested_call(n) if self.inline else None
+        if lifted:
+            yield from self.block(lifted, st)
+            return
         if isinstance(n, ast.Expr):
             tsc = self.top_self_call(n.value)
             if tsc:
